@@ -27,6 +27,7 @@ type ElfSpec struct {
 	Zlib       bool   `json:"zlib,omitempty"`        // the section content is a raw zlib stream (cargo-auditable's .dep-v0)
 	Compressed bool   `json:"compressed,omitempty"`  // SHF_COMPRESSED with an ELF compression header (ch_size = inflated size)
 	ChSize     int64  `json:"ch_size,omitempty"`     // override ch_size (a lie about the inflated size)
+	Repeat     int    `json:"repeat,omitempty"`      // number of section headers with this name, all pointing at the same bytes (0 = 1)
 }
 
 func zlibOf(content []byte, fill byte, mib int) []byte {
@@ -71,10 +72,14 @@ func (e *ElfSpec) bytes() []byte {
 	dataOff := ehsize
 	strOff := dataOff + len(data)
 	shOff := strOff + len(shstrtab)
+	rep := e.Repeat
+	if rep < 1 {
+		rep = 1
+	}
 	var b bytes.Buffer
 	le := binary.LittleEndian
 	b.Write([]byte{0x7f, 'E', 'L', 'F', 2, 1, 1, 0, 0, 0, 0, 0, 0, 0, 0, 0})
-	for _, v := range []any{uint16(1), uint16(62), uint32(1), uint64(0), uint64(0), uint64(shOff), uint32(0), uint16(ehsize), uint16(0), uint16(0), uint16(shentsize), uint16(3), uint16(2)} {
+	for _, v := range []any{uint16(1), uint16(62), uint32(1), uint64(0), uint64(0), uint64(shOff), uint32(0), uint16(ehsize), uint16(0), uint16(0), uint16(shentsize), uint16(2 + rep), uint16(1 + rep)} {
 		binary.Write(&b, le, v)
 	}
 	b.Write(data)
@@ -85,7 +90,9 @@ func (e *ElfSpec) bytes() []byte {
 		}
 	}
 	sh(0, 0, 0, 0, 0)
-	sh(1, 1, flags, uint64(dataOff), uint64(len(data)))
+	for i := 0; i < rep; i++ {
+		sh(1, 1, flags, uint64(dataOff), uint64(len(data)))
+	}
 	sh(uint32(strNameOff), 3, 0, uint64(strOff), uint64(len(shstrtab)))
 	return b.Bytes()
 }
